@@ -38,13 +38,19 @@ static size_t vx_emplace(size_t pos) { __CPROVER_assert(pos <= vx_size, "[C05] e
 static void vx_assign(size_t pos) { __CPROVER_assert(pos < vx_size, "[C05] assignment to a member of the vector"); vx_assigns++; vx_assign_pos = pos; }
 /* the watched pre-existing member */
 static size_t vx_w; static int64_t vx_wkey; static bool vx_has_w;
+static bool vx_touched_has_name(void) { for (int k = 0; k < VX_TOUCH_MAX; ++k) if (k < vx_t_n && vx_t_key[k] == vx_name) return true; return false; }   /* some member looked at has the name */
 /*@GROUP funcs@*/
+/*@GROUP merges@*/
 #ifdef VX_CBMC
 static void setup(void)
 {
     vx_size = nondet_size(); __CPROVER_assume(vx_size <= 100000000); vx_size0 = vx_size; vx_name = nondet_i64(); vx_t_n = 0; vx_inserts = 0; vx_assigns = 0;
     vx_has_w = vx_size > 0; vx_w = nondet_size(); if (vx_has_w) { __CPROVER_assume(vx_w < vx_size); vx_wkey = vx_key_at(vx_w); }
 }
+void h_merge_step(void) { setup(); merge_step(); }
+void h_merge_or_update_step(void) { setup(); merge_or_update_step(); }
+void h_merge_hint_step(void) { setup(); size_t hint = nondet_size(); merge_hint_step(&hint); }
+void h_merge_or_update_hint_step(void) { setup(); size_t hint = nondet_size(); merge_or_update_hint_step(&hint); }
 void h_try_emplace_0(void) { setup(); size_t r = try_emplace_0(); (void)r; }
 void h_try_emplace_1(void) { setup(); size_t r = try_emplace_1(); (void)r; }
 void h_try_emplace_hint_0(void) { setup(); size_t r = try_emplace_hint_0(nondet_size()); (void)r; }
